@@ -134,6 +134,12 @@ ReasonForces == \A i \in 1..Len(trail) : trail[i].reason # NONE =>
                    /\ \A l \in trail[i].reason \ {trail[i].lit} : \E j \in 1..(i - 1) : trail[j].lit = -l
 SatSound      == status = "Sat" => [v \in Vars |-> v \in Assigned] \in ModelsOf(F)
 UnsatSound    == status = "Unsat" => ModelsOf(F) = {}
+(* a model found by the search is the ONLY model of F that agrees with its decisions: everything  *)
+(* else on the trail was propagated.  This is what makes "block the decisions" in Enumerate and   *)
+(* CountModels remove exactly the model just found (C05).                                         *)
+Decisions == {trail[i].lit : i \in {j \in 1..Len(trail) : trail[j].reason = NONE}}
+DecisionsDetermineModel ==
+  status = "Sat" => {a \in ModelsOf(F) : \A l \in Decisions : SatAsg(a, {l})} = {[v \in Vars |-> v \in Assigned]}
 LearnEntailed == \A c \in L : \A a \in ModelsOf(F) : SatAsg(a, c)
 ConflEntailed == confl # NONE => (\A a \in ModelsOf(F) : SatAsg(a, confl)) /\ (\A l \in confl : IsFalse(l))
 
